@@ -515,7 +515,7 @@ func StressDocs() []string {
 		deepMap += pad(i) + "a:\n"
 	}
 	long := "groups:\n- name: g\n  rules:\n  - record: foo\n    expr: " + strings.Repeat("foo + ", 3000) + "foo\n"
-	return []string{
+	out := []string{
 		deep, deepMap, long,
 		"groups:\n- name: g\n  rules: &r\n  - record: a\n    expr: up\n- name: h\n  rules: *r\n",
 		"base: &b\n  record: a\n  expr: up\ngroups:\n- name: g\n  rules:\n  - <<: *b\n  - <<: *b\n    record: c\n",
@@ -550,5 +550,35 @@ func StressDocs() []string {
 		"groups:\n# pint ignore/begin\n{{ template }}\n# pint ignore/end\n- name: g\n  rules: []\n",
 		"groups:\n- name: g\n  rules:\n  - alert: a\n    expr: up\n    annotations:\n      s: 'it''s {{ $labels.x }}'\n",
 		"groups:\n- name: g\n  rules:\n  - alert: a\n    expr: up\n    labels:\n      s: \"\\\"{{ $value }}\\\"\"\n",
+	}
+	for _, t := range HostileTemplates() {
+		out = append(out, "groups:\n- name: g\n  rules:\n  - alert: a\n    expr: sum(up) by (job) > 0\n    labels:\n      l: '"+strings.ReplaceAll(t, "'", "''")+"'\n    annotations:\n      a: '"+strings.ReplaceAll(t, "'", "''")+"'\n")
+	}
+	return out
+}
+
+// HostileTemplates: alert templates chosen to stress pint's template analysis (variable aliasing, cycles, nesting).
+func HostileTemplates() []string {
+	return []string{
+		"{{ $a := .Labels }}{{ $b := $a }}{{ $a := $b }}{{ $a.job }}",
+		"{{ $a := $labels }}{{ $a := $a }}{{ $a.instance }}",
+		"{{ $x := $value }}{{ $y := $x }}{{ $x = $y }}{{ $x }}",
+		"{{ with $labels }}{{ with . }}{{ .job }}{{ end }}{{ end }}",
+		"{{ range $k, $v := $labels }}{{ $k }}={{ $v }} {{ end }}",
+		"{{ define \"x\" }}{{ .Labels.job }}{{ end }}{{ template \"x\" . }}",
+		"{{ $labels := .Value }}{{ $labels }}",
+		"{{ (index $labels \"job\") }}{{ index .Labels \"instance\" }}",
+		"{{ if $labels.job }}{{ else if $labels.a }}{{ else }}{{ end }}",
+		"{{ printf \"%v %v\" $labels $value | reReplaceAll \"a\" \"b\" }}",
+		"{{ query \"up\" | first | value }}{{ range query \"up{job='x'}\" }}{{ . | label \"job\" }}{{ end }}",
+		"{{ $value | humanize | humanize1024 | humanizeDuration | humanizePercentage | humanizeTimestamp }}",
+		"{{ block \"b\" . }}{{ .Labels.x }}{{ end }}",
+		"{{- /* comment */ -}}{{ $labels.job -}}",
+		"{{ $v := $value }}{{ with $v }}{{ . }}{{ end }}",
+		"{{ .Labels.a.b.c }}{{ $labels.a.b }}",
+		"{{ $externalLabels.x }}{{ $externalURL }}{{ .ExternalURL }}",
+		"{{ len $labels }}{{ $labels | len }}{{ not $labels }}",
+		strings.Repeat("{{ $labels.job }}", 300),
+		"{{ " + strings.Repeat("(", 100) + "$value" + strings.Repeat(")", 100) + " }}",
 	}
 }
